@@ -88,13 +88,26 @@ chk("C20", "resolve", "model_checking",
     "Trusted: the protocol model written from the property statement; injectable reader (the real file system is not involved).",
     "exhaustive enumeration of environment answers (virtual file systems) against a protocol model", "DESIGN.md 5/C20")
 
+chk("C10", "py/e2e.py + tzmc dump", "exploration",
+    "Every distinct TZif file of the vendored IANA corpus (fat posix tree, slim tree) x {every transition -1/0/+1, footer-rule transitions -1/0/+1 for 2038..2137 (..2437), calendar grid 1900..2500} compared with CPython zoneinfo (offset, abbreviation) and glibc localtime (offset, abbreviation, isdst) - 3.1 M instants per reference in the quick tier; right/ files against glibc through an independent leap-table mapping; local times around transitions since 1970: tz-rs valid instants must equal the inverse image under each reference; well-formed POSIX TZ strings vs glibc's TZ parser. No random instants: complete enumeration of the listed sets.",
+    "Oracles are external (python3 3.11 zoneinfo, glibc of this image). Written exclusions, listed in evidence: files without footer after their last transition (I6); one slim file whose footer contradicts its last transition (RFC 8536 3.3); TZ-string instants within 2 days of New Year (glibc evaluates rules per calendar year).",
+    "complete enumeration of transition-adjacent instants on a real corpus against two independent reference implementations", "DESIGN.md 5/C10")
+chk("C15", "hist (tzmc) + conc (shuttle)", "model_checking",
+    "History exploration: every sequence of <= 3 operations over a 32-op collision alphabet (33 824 histories; thorough adds all length-4 histories over 16 ops) in one process; after every operation the result digest must equal the run-alone digest from a fresh process (under 4 TZ/TZDIR environments), no byte of the executable's .data/.bss/TLS may change, no getenv call may occur, raw bytes of all shared values must be unchanged. Schedule exploration: shuttle check_dfs explores ALL interleavings of 2 threads x 2 ops (every ordered pair per thread over 12 ops) and 3 threads x 1 op (10 804 bodies, 214 k schedules) on a copy of the crate whose std::sync / core::sync::atomic / thread_local! uses are rerouted to shuttle's, oracle: every op returns its run-alone result; a failing schedule is replayed twice.",
+    "I9: the structural clauses ('no static', 'no interior mutability') are decided through their observable consequences; hidden state that no explored operation ever writes is invisible. Primitives the rewriting cannot reroute (nested-brace imports, OnceLock/LazyLock, Cell-based statics) are counted in evidence; if the rerouted copy does not compile the unrerouted copy is explored at operation granularity and evidence says so. Monitors are self-tested on every run (injected static write, TLS write, getenv).",
+    "exhaustive history-tree enumeration with write monitors + exhaustive DFS schedule exploration under a controlled scheduler (shuttle)", "DESIGN.md 5/C15")
+chk("C19", "check_c19 + tzmc", "exploration",
+    "tz-rs is built with no features, with alloc and with std; the harness is built against each; the deterministic workloads of 11 allocation-free engines (C01-C05, C11-C14, C16, C18 workloads) run in all three configurations and of 3 alloc-level engines (C08, C09, C20) in alloc and std, in digest mode: the exit status of each engine's own oracle and the order-independent result digests must be identical across configurations (thorough: both build profiles).",
+    "Host build with #![no_std] (no bare-metal target is installed): compile success without `extern crate alloc` shows no alloc/std path is used. A workload that fails identically in every configuration is not a C19 violation.",
+    "complete enumeration of feature configurations x deterministic workloads with digest comparison", "DESIGN.md 5/C19")
+
 NOT_YET = "check not built yet in this revision (see DESIGN.md for the planned engine)"
 manifest = {
     "version": 1,
     "setup_cmd": "./check --setup",
     "hooks": {
         "guard": "tz_rs_verif",
-        "enable": "none needed: every mechanism is observable through the public API; /repo is built unmodified as a path dependency of /verif/harness",
+        "enable": "none needed: every mechanism is observable through the public API; /repo is built unmodified as a path dependency of /verif/harness (C15 additionally builds a rerouted scratch COPY of /repo under /tmp, never /repo itself)",
         "baseline_off_cmd": "cd /repo && cargo test --workspace --no-fail-fast --offline",
         "source_commits": [],
         "add_only": True,
@@ -104,7 +117,7 @@ manifest = {
     ],
     "checks": [CHECKS[k] for k in sorted(CHECKS)],
     "not_applicable": [{"property_id": p, "reason": NOT_YET} for p in ALL if p not in CHECKS],
-    "notes": "Exit codes: 0 held, 1 violation (VIOLATION line), >=2 machinery failure. Known findings: /verif/known_findings.json.",
+    "notes": "Exit codes: 0 held, 1 violation (VIOLATION line), >=2 machinery failure. Known findings: /verif/known_findings.json (KF1, KF2 open; KF3 fixed by /repo commit 02bcb6c). Seeded changes and which checks catch them: /verif/seeded/*/meta.json and DESIGN.md section 8.",
 }
 json.dump(manifest, open(os.path.join(HERE, "MANIFEST.json"), "w"), indent=1)
 print("claimed:", sorted(CHECKS))
